@@ -64,6 +64,7 @@ theorem dead_step (st : State) (op : Op) (a : Nat) :
     | demonitor g b => exact Or.inl h
     | demonitorScope s b => exact Or.inl h
     | newRemote b => exact Or.inl h
+    | drain b => exact Or.inl h
   · rintro (h | rfl)
     · exact dead_mono_step st op h
     · exact exit_marks_dead st a
@@ -164,6 +165,21 @@ theorem exited_actor_owns_nothing (before after : List Op) (a : Nat) :
   obtain ⟨h1, h2, h3⟩ := dead_owns_nothing h hd
   exact ⟨fun s g => h1 (s, g), h2, h3, h.dead a hd⟩
 
+/-- `drain()` — on a live actor or, late, through a stale reference on one that is already stopping —
+is invisible to pg: it changes none of the four indexes, not the set of stopping actors, and
+notifies nobody. (The seeded changes C10-4 / C11-4 let a late `drain()` rewind `Stopping` to
+`Draining`, which re-opens the door of `join_scoped`/`monitor*`.) -/
+theorem drain_is_invisible_to_pg (st : State) (a : Nat) : step st (.drain a) = (st, []) := rfl
+
+/-- the late-drain-then-join window: an actor that has begun to stop is not re-admitted by a join
+(or monitor) that follows a late `drain()`, however many of them -/
+theorem late_drain_then_join_never_adds (before : List Op) (a s g : Nat) (as : List Nat) (k m : Nat) :
+    let st := run init (before ++ .exit a :: [.drain a, .join s g as, .monitor k a, .drain a, .monitorScope m a])
+    (∀ s' g', ¬ member st s' g' a) ∧ (∀ k', ¬ monitorsGroup st k' a) ∧ (∀ s', ¬ monitorsScope st s' a) := by
+  intro st
+  have := exited_actor_owns_nothing before [.drain a, .join s g as, .monitor k a, .drain a, .monitorScope m a] a
+  exact ⟨this.1, this.2.1, this.2.2.1⟩
+
 /-- in particular a join never adds a stopping actor -/
 theorem join_never_adds_stopping (ops : List Op) (s g : Nat) (as : List Nat) (a : Nat)
     (hd : a ∈ (run init ops).dead) : ¬ member (join (run init ops) s g as).1 s g a := by
@@ -235,7 +251,8 @@ region by region (`mark` = publish `Stopping`; `demonitor_all`: drain, one entry
 drain, one entry per step, finish) in any order of the drained keys, and let the environment run,
 between any two of these regions and in any number, any public pg call at its locked region —
 `join`/`monitor`/`monitor_scope` naming `a` included —, the post-lock clean-up regions of
-`monitor*`/`join_scoped`, and whole exits of other actors. Then, for EVERY such schedule: once the
+`monitor*`/`join_scoped`, late `drain()`s of the exiter through stale references (`api (.drain a)`,
+possibly followed by joins naming it), and whole exits of other actors. Then, for EVERY such schedule: once the
 exit has finished, `a` is a member of no group and a listener of none (no zombie), `a` is marked
 stopping, and this stays true for every continuation of the schedule. -/
 theorem exit_race_no_zombie (ops : List Op) (a : Nat) (sched : List Fine.FOp) :
@@ -359,8 +376,9 @@ exit reaches `done` and nothing of actor 0 is left -/
 example :
     let st0 := run init [.join 1 0 [0, 1], .monitor 0 0, .monitorScope 0 0]
     let fs := Fine.frun 0 ⟨st0, .live⟩
-      [.mark, .api (.join 1 1 [0, 2]), .demTake, .api (.monitor 1 0), .demKey (1, 0), .monRecheck 1 0,
-       .demWKey 0, .demDone, .api (.leave 1 0 [1]), .take, .lvKey (1, 0), .finish, .api (.join 1 0 [0])]
+      [.mark, .api (.drain 0), .api (.join 1 1 [0, 2]), .demTake, .api (.monitor 1 0), .demKey (1, 0),
+       .monRecheck 1 0, .demWKey 0, .demDone, .api (.leave 1 0 [1]), .take, .lvKey (1, 0), .api (.drain 0),
+       .api (.join 1 0 [0]), .finish, .api (.join 1 0 [0])]
     fs.ph = .done ∧ getMembers fs.st 1 0 = [] ∧ getMembers fs.st 1 1 = [2] ∧ fs.st.rel.map (·.1) = [2, 1] ∧
     fs.st.dead = [0] ∧ ok fs.st = true := by decide
 
@@ -395,6 +413,8 @@ end C11
 #print axioms C11.whichScopedGroups_spec
 #print axioms C11.exited_actor_owns_nothing
 #print axioms C11.join_never_adds_stopping
+#print axioms C11.drain_is_invisible_to_pg
+#print axioms C11.late_drain_then_join_never_adds
 #print axioms C11.join_notifications
 #print axioms C11.leave_notifications
 #print axioms C11.exit_notifications
